@@ -534,11 +534,16 @@ inductive FOp
   | pop (i : Int)                  -- `lst.pop(i)`
   | reverse                        -- `lst.reverse()`
   | clear                          -- `d.clear()`
+  | update (items : List (String × V))   -- `d.update(other, **kw)` / `d |= other`: the entries of
+                                         -- `other` (the value OBJECTS themselves), then the keywords
+  | setdefault (key : String) (v : V)    -- `d.setdefault(key, v)`
 
 /-- the values an operation installs. -/
 def FOp.vals : FOp → List V
   | .set _ v | .setIdx _ v | .append v | .insert _ v => [v]
   | .extend vs => vs
+  | .update items => items.map fun kv => kv.2
+  | .setdefault _ v => [v]
   | _ => []
 
 def listItems (vs : List V) : Fields := Fields.ofList (vs.map fun v => ("", v))
@@ -580,6 +585,17 @@ def FOp.applyCore (op : FOp) (k : Kind) (fs : Fields) : Except Exc Fields :=
     | none => .error .indexError
   | .reverse => .ok (Fields.ofList fs.toList.reverse)
   | .clear => .ok .nil
+  | .update items =>
+    -- `Meta.update`: every key is validated before anything is stored (a rejected update leaves
+    -- the object unchanged); then one `__setitem__` per entry, in order.  The argument is only read.
+    if items.all (fun kv => keyValid k (mapKey k kv.1)) then
+      .ok (items.foldl (fun acc kv => acc.set (mapKey k kv.1) kv.2) fs)
+    else .error .keyError
+  | .setdefault key v =>
+    -- `if key not in self: self[key] = value` (`in` looks the RAW key up, `__setitem__` maps it)
+    match fs.get? key with
+    | some _ => .ok fs
+    | none => if keyValid k (mapKey k key) then .ok (fs.set (mapKey k key) v) else .error .keyError
 
 /-- is the operation an attribute assignment (the only in-place operation a `Regions` OBJECT
 supports: the class defines no `__setitem__`, `__delitem__`, `__iadd__`; its `append`, `extend`,
